@@ -100,7 +100,7 @@ def conn_same(a, b):
 
 def exits(ctx, write_guarded):
     facts = ctx.facts
-    fn, lv = leaves(ctx, srv.REQUESTS)
+    fn, lv = leaves(ctx, srv.REQUESTS, lower=True)    # closures given to and_then / or_else are part of what requests() does
     Sh = Shapes(facts)
     n = 0
     causes = set()
@@ -142,6 +142,8 @@ def exits(ctx, write_guarded):
             cause = "accept/refusal-write I/O error"
         elif src is not None and is_call(src, S + "epoll_mod"):
             cause = "epoll_ctl error"
+        elif src is not None and is_call(src, srv.HNC):
+            cause = "handle_new_connection error"
         elif src is not None and is_call(src, CC + "read"):
             cause = "in-flight counter overflow (checked_add)"
         elif src is not None and is_call(src, CC + "write"):
@@ -152,6 +154,12 @@ def exits(ctx, write_guarded):
             e = look(rk[1])
             if e[0] == "field" and e[1][0] == "downcast" and is_call(look(e[1][1]), srv.HNC):
                 cause = "handle_new_connection error"
+            elif e[0] == "field" and e[1][0] == "downcast" and e[1][2] == "Err":
+                x = look(e[1][1])
+                while is_call(x, "map_err") and x[2]:
+                    x = look(x[2][0])
+                if is_call(x, "accept"):
+                    cause = "accept/refusal-write I/O error"
         if cause is None:
             ctx.fail("R09.1", "exit|unrecognised|%s" % sorted(names), "requests() can fail with %s on a path the checker does not know (fail closed)" % sorted(names), fn.loc(lf.bb), witness="blocks %s" % lf.trace[-10:])
             continue
